@@ -162,10 +162,25 @@ def unit_rate(model, sizes, vec, limit, use_t):
     return recs
 
 
+def anysize_note():
+    from .anysize import A_SUM
+    return A_SUM
+
+
+def unit_anysize(model, n, gamma_mode):
+    """_compute == published update for teams of every size (anysize.py)"""
+    from . import anysize
+    return anysize.c01(model, n, gamma_mode)
+
+
 def units(tier):
     us = []
     nmax = 4 if tier == "quick" else 8
     for m in extract.MODELS:
+        for n in range(2, (4 if tier == "quick" else 7) + 1):
+            us.append(("unit_anysize", (m, n, "default")))
+            if n <= 5:
+                us.append(("unit_anysize", (m, n, "custom")))
         for n in range(2, nmax + 1):
             for sizes in size_vectors(n, tier):
                 us.append(("unit_compute", (m, sizes, "default")))
@@ -178,7 +193,7 @@ def units(tier):
                         continue
                     us.append(("unit_rate", (m, sizes, vec, limit, vec == "ranks" and not limit)))
     # biggest first for better packing
-    us.sort(key=lambda u: -(sum(u[1][1]) * 2 ** len(u[1][1])))
+    us.sort(key=lambda u: -((sum(u[1][1]) * 2 ** len(u[1][1])) if u[0] != "unit_anysize" else 2 ** u[1][1]))
     return us
 
 
@@ -198,10 +213,11 @@ def main(tier, seed):
             "denominators non-zero and sqrt arguments non-negative on the path (side conditions of the field normal form; proved by C08's safety obligations)",
             "v, w, vt, wt enter as the uninterpreted V, W, Vt, Wt of their contracts (the property's 'documented asymptotic form' is C17's business); a custom gamma is an uninterpreted function >= 0 of its arguments (A-gamma)",
             "oracle = pyvc/specs/weng_lin.py, transcribed from Weng & Lin (2011) Algorithms 1-4 and the property text (trusted transcription)",
+            anysize_note(),
             "shape-bounded: tie patterns all 2^(n-1) per n, n = 2..4 quick / 2..8 thorough, team-size vectors in coverage.shapes; rate-level: every weak order of symbolic rank/score values for the listed small shapes",
         ],
         explanation=("For every listed shape the real _compute of each model is executed on symbolic ratings and its per-player (mu, sigma) result terms are proved *identical as exact normal forms* (Laurent polynomials over canonical sqrt/exp/V/W atoms with named denominators) to the published Weng-Lin update written from the paper; "
                      "the real rate() (tau inflation, stable sort by rank, _compute, unsort, limit_sigma clamp) is proved equal to the spec composition for symbolic rank or score vectors on every path of the sort (every weak order). Values unbounded, shapes bounded. "
                      "Known finding K1: ThurstoneMostellerPart uses pair scale 2*sqrt(..) (proved equal to the published update with k = 2; the k = 1 obligation fails)."),
-        shapes=sorted({str(u[1][1]) for u in units(tier)}),
+        shapes=sorted({str(u[1][1]) if u[0] != "unit_anysize" else f"n={u[1][1]}, every team size (gamma {u[1][2]})" for u in units(tier)}),
     )
